@@ -297,7 +297,7 @@ fn main() {
     let mut serial = 0usize;
     for n in 1..=nmax {
         let sets = dsets(2, n, true, true, false);
-        let thin = if th { if n >= 7 { 8 } else { 1 } } else if n >= 5 { 3 } else { 1 };
+        let thin = if th && n >= 7 { 8 } else { 1 };
         for (si, t) in sets.iter().enumerate() {
             if thin > 1 && si % thin != (n % thin) {
                 continue;
